@@ -12,4 +12,4 @@ for P in $PIDS; do
 done
 git -C /repo worktree remove --force $W/wt; rm -rf $W
 # scratch runs use private build/ and coq/ copies (vlib/common.py), nothing to restore; remove them
-rm -rf /verif/build/scratch-*
+rm -rf /verif/build/scratch-$(python3 -c "import hashlib,os;print(hashlib.sha256(os.path.realpath('$W/wt').encode()).hexdigest()[:10])")
